@@ -23,7 +23,7 @@ RULE = ("(generated) valid current descriptions (C01/C02/C03/C04 generators) are
         "carries the current version and proper type; re-loading the dump gives an equal snapshot; second dump byte-identical. "
         "(fixtures) every .treeinfo / .discinfo / images / composeinfo fixture shipped under tests/: accepted => written, "
         "re-read equal, second dump identical. Non-trivial = document version < current and the conversion had something to "
-        "convert; distinct = SHA-1 of description+version (or fixture path).")
+        "convert; distinct = SHA-1 of description+version (or fixture path). JSON documents are additionally handed over as ONE parsed dict feeding two readers (the dict must stay unmodified), and an rpms document is loaded into an object that already served another load while the caller still holds the earlier mapping.")
 ASSUMPTIONS = ["composeinfo 0.x has no format document: the down-conversion follows the mapping the legacy readers document in their code comments",
                "images 1.0 documents whose identities collide once the subvariant defaults to '' are a recorded known finding (KF-C05-images-1.0-collision) and are not generated",
                "treeinfo 0.0: family names triggering the RHEL/Fedora/CentOS heuristics, versions containing '-'/'_', dashed main variants and timestamps truncating to 0 are not generated"]
